@@ -280,7 +280,14 @@ def _table(spec, ctx):
         dist = 'copulas.univariate.' + k
         expect = {c: k for c in cols}
     elif form == 'instance':
-        if rng.random() < 0.5:
+        if rng.random() < 0.25:
+            # a prototype whose meaningful option is falsy: lower bound exactly 0 on a positive table
+            df = df - df.min() + 0.5
+            X = df.to_numpy()
+            dist = cu.TruncatedGaussian(minimum=0, maximum=float(X.max() * 2 + 1))
+            expect = {c: 'TruncatedGaussian' for c in cols}
+            opts = {c: ('min', 0) for c in cols}
+        elif rng.random() < 0.5:
             bw = float(rng.choice([0.2, 0.5]))
             dist = cu.GaussianKDE(bw_method=bw)
             expect = {c: 'GaussianKDE' for c in cols}
